@@ -55,7 +55,7 @@ pub fn val_parse(s: &str) -> Valuation {
 /// `floor`: the tolerance is relative to max(max|reference|, floor); the floor is the largest magnitude that has flowed
 /// through the network so far (inputs and earlier activations), at most 1 - so that data of scale 1e-6 or 1e-42 is
 /// judged at its own scale, while a layer whose outputs cancel to near zero is judged at the scale of its operands
-fn cmp(lib: &[f32], reff: &[f64], tol: f64, floor: f64) -> Result<bool, String> {
+fn cmp(lib: &[f32], reff: &[f64], tol: f64, floor: f64, extra: f64) -> Result<bool, String> {
     if lib.len() != reff.len() {
         return Err(format!("{} elements, reference has {}", lib.len(), reff.len()));
     }
@@ -68,7 +68,7 @@ fn cmp(lib: &[f32], reff: &[f64], tol: f64, floor: f64) -> Result<bool, String> 
         if (lib[i] as f64) != reff[i] {
             exact = false;
             // 64 quanta of gradual underflow (2^-149 each): below 2^-126 rounding is absolute, not relative
-            if (lib[i] as f64 - reff[i]).abs() > tol * scale + 64.0 * 1.401298464324817e-45 {
+            if (lib[i] as f64 - reff[i]).abs() > tol * scale + extra + 64.0 * 1.401298464324817e-45 {
                 return Err(format!("element {}: {:e}, reference {:e}", i, lib[i], reff[i]));
             }
         }
@@ -156,6 +156,16 @@ pub fn check_net(net: &Net, val: Valuation, flat_in: bool, seed: u64, case: &Kv,
     // 0.01 is not dyadic), sigmoid and tanh chains amplify single-precision rounding to ~1e-5 relative
     let smooth = net.name().contains("leaky") || net.name().contains("sigmoid") || net.name().contains("tanh") || net.name().contains("softmax");
     let tol = if smooth { 1e-4 } else if val == Valuation::Generic { 2e-5 } else { 2e-6 };
+    // conditioning: 64 x how far the exact value of each tensor moves when every datum is perturbed by one rounding
+    let tp = perturbed_trace(net, &shapes, &to_f64(&params), &x64);
+    let moved = |a: &[f64], b: &[f64]| -> f64 {
+        let m = a.iter().zip(b).fold(0.0f64, |m, (x, y)| m.max((x - y).abs()));
+        if m.is_finite() {
+            64.0 * m
+        } else {
+            f64::INFINITY
+        }
+    };
     let mut all_exact = true;
     let mut flow = x64.iter().fold(0.0f64, |m, v| m.max(v.abs()));
     for i in 0..net.layers.len() {
@@ -165,7 +175,7 @@ pub fn check_net(net: &Net, val: Valuation, flat_in: bool, seed: u64, case: &Kv,
             flow = flow.max(1.0);
         }
         if !matches!(net.layers[i], L::Fb { .. }) {
-            match cmp(&run.pre[i].1, &tr.layers[i].pre, tol, flow) {
+            match cmp(&run.pre[i].1, &tr.layers[i].pre, tol, flow, moved(&tp.layers[i].pre, &tr.layers[i].pre)) {
                 Ok(e) => all_exact &= e,
                 Err(e) => {
                     rep.violate(layer_key(net, &shapes, i, flat_in, "pre-activation"), format!("{} layer {}: {}", net.name(), i, e), case);
@@ -173,7 +183,7 @@ pub fn check_net(net: &Net, val: Valuation, flat_in: bool, seed: u64, case: &Kv,
                 }
             }
         }
-        let r = cmp(&run.post[i + 1].1, &tr.activated[i + 1], tol, flow);
+        let r = cmp(&run.post[i + 1].1, &tr.activated[i + 1], tol, flow, moved(&tp.activated[i + 1], &tr.activated[i + 1]));
         flow = tr.activated[i + 1].iter().fold(flow, |m, v| m.max(v.abs()));
         match r {
             Ok(e) => all_exact &= e,
